@@ -163,14 +163,18 @@ def influence_case(case):
                 new = ord(str((int(chr(ch)) + 3) % 10))
             elif leaf["k"] == "s" and chr(ch).isalpha():
                 new = ord("Q") if chr(ch) != "Q" else ord("R")
-            elif leaf["r"] == "spare":
+            elif leaf["r"] == "spare" and leaf["k"] == "s":
                 new = ord("#") if ch != ord("#") else ord("%")
+            elif leaf["r"] == "spare":
+                new = ord("7") if ch != ord("7") else ord("3")   # a numeric spare holds "any number": one digit in the blank area is one
             else:
                 continue
         else:
             new = ch ^ 0x01
             if leaf["t"]:
                 continue  # enumerated code: a flipped byte is not a valid code
+            if leaf["k"] in ("ydms", "ydus"):
+                continue  # binary date-time stamp: a flipped byte is (mostly) not a date at all
         data = bytearray(orig)
         data[kpos] = new
         files = dict(b.files)
@@ -191,7 +195,9 @@ def influence_case(case):
             continue
         # all differences must be inside the mapped leaf
         leafname = m["n"]
-        foreign = [x for x in d if f"/{leafname}" not in x and leafname not in x]
+        # (nested per-line structs surface under a qualified name: a.b -> a_b)
+        names_ = {leafname, leafname.replace(".", "_")}
+        foreign = [x for x in d if not any(nm in x for nm in names_)]
         if foreign:
             res["bad"].append((kpos, path, f"changed other leaves than {m['g']}:{leafname}: {foreign[:2]}"))
     return res
